@@ -2681,7 +2681,7 @@ func E4ZeroGuardIsDivisor(c *core.Ctx, r *core.Report, rel string) {
 					}
 					switch tv.Value.Kind() {
 					case constant.Int, constant.Float:
-						return constant.Sign(tv.Value) == 0
+						return numSign(tv.Value) == 0
 					}
 					return false
 				}
